@@ -525,3 +525,48 @@ def search_axis_grids(r, epg, ncase):
         if probs:
             dis.append({"kind": "c04-axis-grids", "problems": probs, "input": {"plan": plan, "dim": dim}})
     return checked, dis
+
+
+def compare_grid_helpers(r, epg, ncase):
+    """`shift.get_grid` and `shift.append_batch_axes` vs the Lean definitions `Shp.getGrid` / `Shp.appendBatchAxes`
+    (about which `Props/C04Grid.lean` proves: a given axis uses its value, a further axis the LAST value): scalars,
+    lists and arrays of 0-5 values against 1-5 coordinate axes; shift shapes of rank 1-4 against 0-4 batch axes."""
+    from epgpy import shift as shiftmod
+    pool = [0.5, 0.25, 0.02, 2.0, 1.0, 7.0, 0.125, 3.5]
+    lines, got, inputs = [], [], []
+    for _ in range(ncase):
+        kdim = int(r.integers(1, 6))
+        n = int(r.integers(0, 6))
+        vals = [pool[i] for i in r.permutation(len(pool))[:n]]
+        form = int(r.integers(3))
+        if n == 1 and form == 0:
+            arg = vals[0]
+        elif form == 1:
+            arg = np.array(vals, dtype=float)
+        else:
+            arg = list(vals)
+        try:
+            res = ["grid"] + [repr(float(x)) for x in shiftmod.get_grid(arg, kdim)]
+        except Exception as exc:
+            res = ["err", type(exc).__name__]
+        got.append(" ".join(res))
+        lines.append(" ".join(["ggrid", str(kdim)] + [repr(float(v)) for v in vals]))
+        inputs.append({"fn": "get_grid", "grid": vals, "kdim": kdim})
+        shp = tuple(int(x) for x in r.integers(1, 4, size=int(r.integers(1, 5))))
+        ndim = int(r.integers(0, 5))
+        try:
+            out = shiftmod.append_batch_axes(np.zeros(shp), ndim).shape
+            res = "shape " + ("x".join(str(x) for x in out) if out else "-")
+        except Exception as exc:
+            res = "err " + type(exc).__name__
+        got.append(res)
+        lines.append(f"gbatch {'x'.join(str(x) for x in shp)} {ndim}")
+        inputs.append({"fn": "append_batch_axes", "shape": shp, "ndim": ndim})
+    out = lib.run_driver(lines)
+    dis = []
+    for g, m, i in zip(got, out, inputs):
+        if g.strip() != m.strip():
+            dis.append({"kind": "c04-grid-helpers", "problems": [("epgpy and the Lean model differ", g, m)], "input": i})
+    if len(out) != len(got):
+        dis.append({"kind": "c04-grid-helpers", "problems": [("driver returned", len(out), "lines for", len(got))], "input": {}})
+    return len(got), dis
